@@ -24,7 +24,7 @@ theorem KMap.get_map_val {α : Type} (m : KMap α) (f : Bytes × α → Bytes ×
       | mk a c => simp [hfp] at h1; subst h1; simp [KMap.get, h, ih]
 
 /-- in-place mutation of an unshared object: the key now reads as the new value, deadline kept -/
-theorem lookup_mutObj_same (s : State) (i : Nat) (k : Bytes) (e : Entry) (v : Val)
+theorem zlookup_mutObj_same (s : State) (i : Nat) (k : Bytes) (e : Entry) (v : Val)
     (h : s.lookup i k = some e) (ho : e.val.oid = 0) :
     (mutObj s i k v).lookup i k = some ⟨v.withOid 0, e.exp⟩ := by
   unfold mutObj
@@ -36,7 +36,7 @@ theorem lookup_mutObj_same (s : State) (i : Nat) (k : Bytes) (e : Entry) (v : Va
   · intro p; obtain ⟨a, c⟩ := p; simp only; split <;> rfl
 
 /-- … and every other key of the database is untouched -/
-theorem lookup_mutObj_other (s : State) (i : Nat) (k k2 : Bytes) (e : Entry) (v : Val)
+theorem zlookup_mutObj_other (s : State) (i : Nat) (k k2 : Bytes) (e : Entry) (v : Val)
     (h : s.lookup i k = some e) (ho : e.val.oid = 0) (hne : k2 ≠ k) :
     (mutObj s i k v).lookup i k2 = s.lookup i k2 := by
   unfold mutObj
